@@ -784,7 +784,7 @@ def run(rep, tier, clauses=("N-vjp", "N-jvp", "N-value"), only_complex=False):
             results += [[(f"{l}@pt{sh}" if sh else l, c_, o, d) for l, c_, o, d in r] for r in pool.map(run_one, cases)]
     _SHIFT[0] = 0
     rep.extra["numeric_points_per_configuration"] = len(shifts)
-    if tier == "thorough":
+    if tier == "thorough" and ({"N-vjp", "N-jvp"} & set(clauses)):      # the value checks only (C01 / C02 / C15): the other clauses would repeat the whole pass per property
         # every configuration once more with ALL sizes > 1 set to 3: an axis mix-up inside a rule fails loudly on distinct sizes and silently on equal ones
         cubes = [(l + "@cube3", src, [(tuple(3 if d > 1 else d for d in shp), k) for shp, k in spec], an) for l, src, spec, an in cases if any(any(d > 1 and d != 3 for d in shp) for shp, _ in spec)]
         with mp.get_context("fork").Pool(8) as pool:
